@@ -74,3 +74,431 @@ pub(crate) fn pb(bytes: &[u8]) -> String {
         }
     }
 }
+
+// ---------------------------------------------------------------------------------------------
+// The real `Identify` protocol object behind the line protocol (coverage round).
+//
+// `idout local=<j> peer=<i> <step>...`   the remote's answer on our outbound identify substream:
+//     a fresh `Identify` runs its real `run()` loop on a paused-clock runtime; the adapter reports
+//     the connection, answers the substream request with a `Substream` over an in-memory pipe
+//     (codec of the real `Config`) and then plays the remote: `w:<hex>` writes bytes, `t:<s>`
+//     lets `s` seconds pass, `c` closes, `r` resets. Observation: the canonicalised
+//     `IdentifyEvent` the user would see, or `noevent`; ` #local <peer id>` and ` #addrs <table>`
+//     (what the third-party multiaddr parser says about every address of the first frame) follow.
+// `idin local=<j> peer=<i> conn=<0|1|2> ep=<addr> pv=<hex> agent=<hex|none> protos=<list>
+//       listen=<list> public=<list> cap=<n> <step>...`
+//     our answer on an inbound identify substream: `t:<s>` time passes, `rd:<n>` the remote reads
+//     `n` bytes. Observation: `sent <all bytes the remote got> #local <peer id>`.
+// `idrt …same arguments as idin, without steps… split=<k>`   node A answers an inbound substream, the
+//     bytes are fed (cut after `k` bytes) into node B's outbound handler; B's event.
+// ---------------------------------------------------------------------------------------------
+
+use super::{Config, Identify, IdentifyEvent};
+use crate::{
+    addresses::PublicAddresses,
+    crypto::{ed25519, PublicKey},
+    protocol::{
+        connection::ConnectionHandle, Direction, InnerTransportEvent, Permit, ProtocolCommand,
+        SubstreamKeepAlive, TransportService,
+    },
+    substream::Substream,
+    transport::{
+        manager::{handle::InnerTransportManagerCommand, TransportManagerHandle},
+        Endpoint,
+    },
+    types::{protocol::ProtocolName, ConnectionId, SubstreamId},
+    verif::{
+        io::{pipe, unframe, PipeCtl},
+        kv, peer,
+    },
+    PeerId,
+};
+
+use futures::{FutureExt, Stream, StreamExt};
+use tokio::sync::mpsc::{channel, Receiver, Sender};
+
+use std::{
+    collections::{HashMap, HashSet},
+    sync::Arc,
+    time::Duration,
+};
+
+const SETTLE: Duration = Duration::from_millis(1);
+const FOREVER: Duration = Duration::from_secs(10 * 365 * 24 * 3600);
+
+/// Runtime with a paused clock on which the `Identify` event loops run.
+pub(crate) struct Rig {
+    rt: tokio::runtime::Runtime,
+}
+
+/// Deterministic key pair number `j` (secret key bytes all `j`).
+fn keypair(j: u8) -> ed25519::Keypair {
+    ed25519::Keypair::from(ed25519::SecretKey::try_from_bytes([j; 32]).expect("32 bytes"))
+}
+
+/// The peer id of local node `j`.
+pub(crate) fn local_id(j: u8) -> PeerId {
+    PublicKey::Ed25519(keypair(j).public()).to_peer_id()
+}
+
+struct Node {
+    tx: Sender<InnerTransportEvent>,
+    events: Box<dyn Stream<Item = IdentifyEvent> + Send + Unpin>,
+    conn_tx: Sender<ProtocolCommand>,
+    conn_rx: Receiver<ProtocolCommand>,
+    _cmd_rx: Receiver<InnerTransportManagerCommand>,
+    codec: crate::codec::ProtocolCodec,
+    protocol: ProtocolName,
+    local: PeerId,
+    task: tokio::task::JoinHandle<()>,
+}
+
+struct NodeSpec {
+    local: u8,
+    pv: String,
+    agent: Option<String>,
+    protos: Vec<String>,
+    listen: Vec<Multiaddr>,
+    public: Vec<Multiaddr>,
+}
+
+impl Node {
+    /// Must be called inside the runtime.
+    fn start(spec: NodeSpec) -> Node {
+        let public = PublicKey::Ed25519(keypair(spec.local).public());
+        let local = public.to_peer_id();
+        let (cmd_tx, cmd_rx) = channel(64);
+        let public_addresses = PublicAddresses::new(local);
+        public_addresses.inner.write().extend(spec.public);
+        let handle = TransportManagerHandle::new(
+            local,
+            Arc::new(Default::default()),
+            cmd_tx,
+            HashSet::new(),
+            Arc::new(parking_lot::RwLock::new(spec.listen.into_iter().collect())),
+            public_addresses,
+        );
+        let (mut config, events) = Config::new(spec.pv, spec.agent);
+        config.public = Some(public);
+        config.protocols = spec.protos.into_iter().map(ProtocolName::from).collect();
+        let (service, tx) = TransportService::new(
+            local,
+            config.protocol.clone(),
+            Vec::new(),
+            Arc::new(Default::default()),
+            handle,
+            FOREVER,
+            SubstreamKeepAlive::No,
+        );
+        let codec = config.codec;
+        let protocol = config.protocol.clone();
+        let task = tokio::spawn(Identify::new(service, config).run());
+        let (conn_tx, conn_rx) = channel(64);
+        Node { tx, events, conn_tx, conn_rx, _cmd_rx: cmd_rx, codec, protocol, local, task }
+    }
+
+    /// Stop the event loop; a panic inside it (handlers and substream futures run there) is
+    /// re-raised so that the harness reports it.
+    async fn finish(&mut self) {
+        if !self.task.is_finished() {
+            self.task.abort();
+        }
+        if let Err(e) = (&mut self.task).await {
+            if e.is_panic() {
+                std::panic::resume_unwind(e.into_panic());
+            }
+        }
+    }
+
+    async fn settle() {
+        tokio::time::sleep(SETTLE).await;
+    }
+
+    /// Report connection 0 to `remote`; returns the substream request identify made, if any.
+    async fn establish(&mut self, remote: PeerId, address: Multiaddr) -> Option<(SubstreamId, Permit)> {
+        let _ = self
+            .tx
+            .send(InnerTransportEvent::ConnectionEstablished {
+                peer: remote,
+                connection: ConnectionId::from(0usize),
+                endpoint: Endpoint::dialer(address, ConnectionId::from(0usize)),
+                sender: ConnectionHandle::new(ConnectionId::from(0usize), self.conn_tx.clone()),
+            })
+            .await;
+        Self::settle().await;
+        match self.conn_rx.try_recv() {
+            Ok(ProtocolCommand::OpenSubstream { substream_id, permit, .. }) => Some((substream_id, permit)),
+            _ => None,
+        }
+    }
+
+    async fn open(&mut self, remote: PeerId, direction: Direction, permit: Permit, cap: usize) -> PipeCtl {
+        let (end, ctl) = pipe(cap);
+        let id = match direction {
+            Direction::Outbound(id) => id,
+            Direction::Inbound => SubstreamId::from(1_000_000usize),
+        };
+        let substream = Substream::new_verif(remote, id, Box::new(end), self.codec);
+        let _ = self
+            .tx
+            .send(InnerTransportEvent::SubstreamOpened {
+                peer: remote,
+                protocol: self.protocol.clone(),
+                fallback: None,
+                direction,
+                connection_id: ConnectionId::from(0usize),
+                substream,
+                opening_permit: permit,
+            })
+            .await;
+        Self::settle().await;
+        ctl
+    }
+
+    fn event(&mut self, remote: PeerId) -> String {
+        match self.events.next().now_or_never() {
+            Some(Some(IdentifyEvent::PeerIdentified {
+                peer: p,
+                protocol_version,
+                user_agent,
+                supported_protocols,
+                observed_address,
+                listen_addresses,
+            })) => {
+                let mut pr: Vec<Vec<u8>> =
+                    supported_protocols.iter().map(|p| p.as_bytes().to_vec()).collect();
+                pr.sort();
+                let pr: Vec<String> = pr.iter().map(|p| hexd(p)).collect();
+                let la: Vec<String> = listen_addresses.iter().map(|a| hexd(&a.to_vec())).collect();
+                format!(
+                    "event peer={} pv={} av={} pr=[{}] oa={} la=[{}]",
+                    if p == remote { "remote".to_string() } else { crate::verif::hex(&p.to_bytes()) },
+                    opts(&protocol_version),
+                    opts(&user_agent),
+                    pr.join(";"),
+                    hexd(&observed_address.to_vec()),
+                    la.join(";"),
+                )
+            }
+            _ => "noevent".into(),
+        }
+    }
+}
+
+/// `#addrs` table of the first complete frame in `bytes` (what `Multiaddr::try_from` and the
+/// trailing component say about every address in it).
+fn addr_table(bytes: &[u8]) -> String {
+    let (frames, _) = unframe(bytes);
+    let mut infos: Vec<String> = Vec::new();
+    if let Some(m) = frames.first().and_then(|f| identify_schema::Identify::decode(&f[..]).ok()) {
+        for a in m.listen_addrs.iter().chain(m.observed_addr.iter()) {
+            let item = format!("{}={}", hexd(a), addr_info(a));
+            if !infos.contains(&item) {
+                infos.push(item);
+            }
+        }
+    }
+    infos.join(",")
+}
+
+fn addr(s: &str) -> Option<Multiaddr> {
+    Multiaddr::try_from(crate::verif::c19::spec::b(s)?).ok()
+}
+
+fn addrs(s: &str) -> Option<Vec<Multiaddr>> {
+    crate::verif::c19::spec::lb(s)?.into_iter().map(|b| Multiaddr::try_from(b).ok()).collect()
+}
+
+fn node_spec(a: &HashMap<&str, &str>) -> Option<NodeSpec> {
+    use crate::verif::c19::spec;
+    Some(NodeSpec {
+        local: a.get("local")?.parse().ok()?,
+        pv: spec::st(a.get("pv").copied().unwrap_or("-"))?,
+        agent: spec::ost(a.get("agent").copied().unwrap_or("none"))?,
+        protos: spec::lst(a.get("protos").copied().unwrap_or("*"))?,
+        listen: addrs(a.get("listen").copied().unwrap_or("*"))?,
+        public: addrs(a.get("public").copied().unwrap_or("*"))?,
+    })
+}
+
+impl Rig {
+    pub(crate) fn new() -> Self {
+        let rt = tokio::runtime::Builder::new_current_thread()
+            .enable_time()
+            .start_paused(true)
+            .build()
+            .expect("runtime");
+        Self { rt }
+    }
+
+    /// `idout`
+    pub(crate) fn outbound(&mut self, t: &[&str]) -> Option<String> {
+        let a = kv(t);
+        let spec = node_spec(&a)?;
+        let remote = peer(a.get("peer")?.parse().ok()?);
+        let steps: Vec<&str> = t.iter().copied().filter(|s| !s.contains('=')).collect();
+        for s in &steps {
+            match s.split_once(':') {
+                Some(("w", h)) => {
+                    crate::verif::c19::spec::b(h)?;
+                }
+                Some(("t", n)) => {
+                    n.parse::<u32>().ok()?;
+                }
+                None if *s == "c" || *s == "r" => {}
+                _ => return None,
+            }
+        }
+        Some(self.rt.block_on(async move {
+            let mut node = Node::start(spec);
+            let local = node.local;
+            let out = run_outbound(&mut node, remote, &steps).await;
+            node.finish().await;
+            format!("{} #local {}", out, crate::verif::hex(&local.to_bytes()))
+        }))
+    }
+
+    /// `idin`
+    pub(crate) fn inbound(&mut self, t: &[&str]) -> Option<String> {
+        let a = kv(t);
+        let spec = node_spec(&a)?;
+        let remote = peer(a.get("peer")?.parse().ok()?);
+        let conn: u8 = a.get("conn").copied().unwrap_or("1").parse().ok()?;
+        let ep = addr(a.get("ep").copied().unwrap_or("-"))?;
+        let cap: usize = a.get("cap").copied().unwrap_or("1048576").parse().ok()?;
+        let steps: Vec<&str> = t.iter().copied().filter(|s| !s.contains('=')).collect();
+        for s in &steps {
+            match s.split_once(':') {
+                Some(("t", n)) => {
+                    n.parse::<u32>().ok()?;
+                }
+                Some(("rd", n)) => {
+                    n.parse::<usize>().ok()?;
+                }
+                _ => return None,
+            }
+        }
+        Some(self.rt.block_on(async move {
+            let mut node = Node::start(spec);
+            let local = node.local;
+            let (sent, _closed) = run_inbound(&mut node, remote, conn, ep, cap, &steps).await;
+            node.finish().await;
+            format!("sent {} #local {}", hexd(&sent), crate::verif::hex(&local.to_bytes()))
+        }))
+    }
+
+    /// `idrt`
+    pub(crate) fn roundtrip(&mut self, t: &[&str]) -> Option<String> {
+        let a = kv(t);
+        let spec = node_spec(&a)?;
+        let remote_index: u64 = a.get("peer")?.parse().ok()?;
+        let conn: u8 = a.get("conn").copied().unwrap_or("1").parse().ok()?;
+        let ep = addr(a.get("ep").copied().unwrap_or("-"))?;
+        let split: usize = a.get("split").copied().unwrap_or("0").parse().ok()?;
+        // node B: the peer that asked; its key pair is number `peer` (1..=250)
+        let b_local: u8 = u8::try_from(remote_index).ok()?;
+        Some(self.rt.block_on(async move {
+            let mut a_node = Node::start(spec);
+            let a_id = a_node.local;
+            let b_id = local_id(b_local);
+            let (sent, _) = run_inbound(&mut a_node, b_id, conn, ep, 1 << 20, &[]).await;
+            a_node.finish().await;
+            let mut b_node = Node::start(NodeSpec {
+                local: b_local,
+                pv: String::new(),
+                agent: None,
+                protos: Vec::new(),
+                listen: Vec::new(),
+                public: Vec::new(),
+            });
+            let k = split.min(sent.len());
+            let w1 = format!("w:{}", hexd(&sent[..k]));
+            let w2 = format!("w:{}", hexd(&sent[k..]));
+            let out = run_outbound(&mut b_node, a_id, &[w1.as_str(), w2.as_str(), "c"]).await;
+            b_node.finish().await;
+            format!(
+                "sent {} ==> {} #local {} #remote {}",
+                hexd(&sent),
+                out,
+                crate::verif::hex(&b_id.to_bytes()),
+                crate::verif::hex(&a_id.to_bytes())
+            )
+        }))
+    }
+}
+
+async fn run_outbound(node: &mut Node, remote: PeerId, steps: &[&str]) -> String {
+    let address: Multiaddr = "/ip4/10.0.0.9/tcp/4444".parse().expect("address");
+    let Some((substream_id, permit)) = node.establish(remote, address).await else {
+        return "noopen".into();
+    };
+    let ctl = node.open(remote, Direction::Outbound(substream_id), permit, 1 << 20).await;
+    let mut written = Vec::new();
+    for s in steps {
+        match s.split_once(':') {
+            Some(("w", h)) => {
+                let b = crate::verif::c19::spec::b(h).expect("checked");
+                ctl.remote_write(&b);
+                written.extend_from_slice(&b);
+            }
+            Some(("t", n)) => {
+                tokio::time::sleep(Duration::from_secs(n.parse::<u64>().expect("checked"))).await;
+            }
+            None if *s == "c" => ctl.remote_close(),
+            None if *s == "r" => ctl.reset(),
+            _ => {}
+        }
+        Node::settle().await;
+    }
+    format!("{} #addrs {}", node.event(remote), addr_table(&written))
+}
+
+async fn run_inbound(
+    node: &mut Node,
+    remote: PeerId,
+    conn: u8,
+    ep: Multiaddr,
+    cap: usize,
+    steps: &[&str],
+) -> (Vec<u8>, bool) {
+    // `conn`: 0 = the peer is not connected, 1 = connected, 2 = was connected, connection closed
+    if conn >= 1 {
+        // (the substream request identify makes on a new connection is left unanswered)
+        let _ = node.establish(remote, ep).await;
+    }
+    if conn >= 2 {
+        let _ = node
+            .tx
+            .send(InnerTransportEvent::ConnectionClosed { peer: remote, connection: ConnectionId::from(0usize) })
+            .await;
+        Node::settle().await;
+    }
+    let permit = Permit::new(node.conn_tx.clone());
+    let ctl = node.open(remote, Direction::Inbound, permit, cap).await;
+    let mut got = Vec::new();
+    for s in steps {
+        match s.split_once(':') {
+            Some(("t", n)) => {
+                tokio::time::sleep(Duration::from_secs(n.parse::<u64>().expect("checked"))).await;
+            }
+            Some(("rd", n)) => got.extend(ctl.remote_read(n.parse().expect("checked"))),
+            _ => {}
+        }
+        Node::settle().await;
+    }
+    // the remote reads until nothing more arrives (a window that was open at all is opened wide, so
+    // that draining takes no logical time)
+    if cap > 0 {
+        ctl.set_cap(1 << 20);
+        Node::settle().await;
+    }
+    loop {
+        let more = ctl.remote_read_all();
+        Node::settle().await;
+        if more.is_empty() {
+            break;
+        }
+        got.extend(more);
+    }
+    (got, ctl.local_closed())
+}
